@@ -103,8 +103,10 @@ def run_case(case, acc, order):
                             exp_mean[k] = exp_spike[sel].mean()
                     try:
                         # arguments left to their defaults where the default is the value wanted
-                        akw = {} if use == 'templates' else {'use': use}
-                        got = m.get_amplitudes_true(**akw) if f == 1 else m.get_amplitudes_true(f, **akw)
+                        # (left out in one half of the cases, passed explicitly in the other)
+                        akw = {} if (use == 'templates' and order % 2 == 0) else {'use': use}
+                        got = m.get_amplitudes_true(**akw) if (f == 1 and order % 2 == 0) else \
+                            m.get_amplitudes_true(f, **akw)
                     except Exception as e:
                         got = e
                     empties = bool(np.isnan(exp_mean).any())
